@@ -1,7 +1,7 @@
 (* Proofs/ArrayTableProofs.v — tables that are arrays: hmtx (numberOfHMetrics <= numGlyphs),
    loca short/long through the owned writer (with its refusals). *)
 From AV Require Import Base.Prelude Base.Lemmas Gen.ReaderPrims Model.Reader Model.ReaderExt
-  Proofs.ReaderProofs Proofs.EncodeProofs Model.Layout Proofs.LayoutProofs Proofs.RecordProofs
+  Proofs.ReaderProofs Proofs.EncodeProofs Model.TableLayout Proofs.TableLayoutProofs Proofs.RecordProofs
   Gen.TableLayouts Model.Tables Proofs.TableProofs.
 From Coq Require Import ZifyBool ZifyNat.
 Ltac Zify.zify_post_hook ::= Z.div_mod_to_equations.
